@@ -4,6 +4,7 @@ import (
 	"context"
 	"errors"
 	"fmt"
+	"google.golang.org/protobuf/proto"
 	"strings"
 	"testing"
 
@@ -27,6 +28,7 @@ type c19Filter struct {
 	refName string // "" = literal secret
 	refNS   string
 	literal string
+	twin    bool // settings copied from an earlier filter; only its configured secret is judged
 }
 
 func c19Prop(c *sim.Case) {
@@ -64,6 +66,16 @@ func c19Prop(c *sim.Case) {
 		defer f.w.Close()
 		fs = append(fs, f)
 		c.Logf("filter %d: ref=%q ns=%q literal=%q", i, f.refName, f.refNS, f.literal)
+	}
+	// a twin: another chain whose OIDC settings are field for field those of an earlier filter that references a
+	// Secret (two routes to one application); it must follow the Secret like its sibling
+	for j, f := range fs {
+		if f.refName != "" && f.refNS != foreign && sim.Weighted(c, "twin", 2, 1) == 1 {
+			fs = append(fs, &c19Filter{refName: f.refName, refNS: f.refNS, twin: true, w: &sim.World{Cfg: proto.Clone(f.w.Cfg).(*oidcv1.OIDCConfig)}})
+			c.Logf("filter %d: twin of filter %d", len(fs)-1, j)
+			c.Class("twin-filter")
+			break
+		}
 	}
 	full := &configv1.Config{}
 	for i, f := range fs {
@@ -103,7 +115,7 @@ func c19Prop(c *sim.Case) {
 				}
 				c.Violation(sig, "%s: filter %d (ref=%q) has client secret %q, the reference map says %q", when, i, f.refName, got, want)
 			}
-			if !exchange {
+			if !exchange || f.twin {
 				continue
 			}
 			f.w.IdP.ClientSecret = want
